@@ -1,1 +1,154 @@
-def main : IO Unit := pure ()
+import Driver.Proto
+import Arimaa.Spec.Rules
+
+/-!
+Specification-mode driver: answers the line protocol with the L2 specification ONLY (imports
+nothing generated and nothing of the implementation model), evaluated on the states the real code
+reported.  It is the direct "rules" oracle for C01 (enabled steps, pass), C02 (result of a step),
+C04 (result at turn start) and C12 (status after a step), from the very definitions the theorems
+are about.
+-/
+open Arimaa.Spec Proto
+
+def bitOf (w : Nat) (i : Nat) : Bool := w.testBit i
+
+/-- board words are p1 all e m h d c r -/
+def specBoard (ws : List Nat) : Board := fun i =>
+  if i ≥ 64 then none else
+  match ws with
+  | [p1, _all, e, m, h, d, c, r] =>
+    let g := bitOf p1 i
+    if bitOf e i then some ⟨g, .elephant⟩
+    else if bitOf m i then some ⟨g, .camel⟩
+    else if bitOf h i then some ⟨g, .horse⟩
+    else if bitOf d i then some ⟨g, .dog⟩
+    else if bitOf c i then some ⟨g, .cat⟩
+    else if bitOf r i then some ⟨g, .rabbit⟩
+    else none
+  | _ => none
+
+def wordsOfSpec (b : Board) : List Nat :=
+  let sumBits (f : Nat → Bool) : Nat := (List.range 64).foldl (fun acc i => if f i then acc + 2 ^ i else acc) 0
+  let isP (p : Piece) (i : Nat) : Bool := match b i with
+    | some c => c.piece == p
+    | none => false
+  [sumBits (fun i => match b i with | some c => c.gold | none => false),
+   sumBits (fun i => (b i).isSome),
+   sumBits (isP .elephant), sumBits (isP .camel), sumBits (isP .horse), sumBits (isP .dog),
+   sumBits (isP .cat), sumBits (isP .rabbit)]
+
+def pieceOfLetter (c : Char) : Option Piece :=
+  match c with
+  | 'r' => some .rabbit | 'c' => some .cat | 'd' => some .dog | 'h' => some .horse
+  | 'm' => some .camel | 'e' => some .elephant | _ => none
+
+def letterOfPiece : Piece → Char
+  | .rabbit => 'r' | .cat => 'c' | .dog => 'd' | .horse => 'h' | .camel => 'm' | .elephant => 'e'
+
+def pendOfString (s : String) : Option Pending :=
+  match s.toList with
+  | ['-'] => some .none
+  | k :: rest =>
+    match rest.reverse with
+    | pc :: ds =>
+      match (String.ofList ds.reverse).toNat?, pieceOfLetter pc with
+      | some sq, some p => if k == 'L' then some (.pull sq p) else if k == 'U' then some (.push sq p) else none
+      | _, _ => none
+    | [] => none
+  | [] => none
+
+def stringOfPend : Pending → String
+  | .none => "-"
+  | .pull q x => s!"L{q}{letterOfPiece x}"
+  | .push q v => s!"U{q}{letterOfPiece v}"
+
+def dirLetter : Dir → Char
+  | .n => 'n' | .e => 'e' | .s => 's' | .w => 'w'
+
+def dirOfLetter (c : Char) : Option Dir :=
+  match c with
+  | 'n' => some .n | 'e' => some .e | 's' => some .s | 'w' => some .w | _ => none
+
+def sqName (i : Nat) : String := String.ofList [Char.ofNat (97 + i % 8), Char.ofNat (48 + (8 - i / 8))]
+
+def moveOfString (s : String) : Option (Nat × Dir) :=
+  match s.toList with
+  | [f, r, d] =>
+    if 'a' ≤ f ∧ f ≤ 'h' ∧ '1' ≤ r ∧ r ≤ '8' then
+      match dirOfLetter d with
+      | some dd => some ((f.toNat - 97) + (8 - (r.toNat - 48)) * 8, dd)
+      | none => none
+    else none
+  | _ => none
+
+structure SpecState where
+  board : Board
+  gold : Bool
+  step : Nat
+  pend : Pending
+  play : Bool
+
+def stateOfRaw (r : RawState) : Option SpecState :=
+  match r.play with
+  | none => some { board := specBoard r.board, gold := r.gold, step := 0, pend := .none, play := false }
+  | some p =>
+    match pendOfString p.pps with
+    | some pd => some { board := specBoard r.board, gold := r.gold, step := p.prev.length, pend := pd, play := true }
+    | none => none
+
+def sortStrings (l : List String) : List String := (l.toArray.qsort (· < ·)).toList
+
+def observe (s : SpecState) : String :=
+  if !s.play then "setup" else
+  let moves := (List.range 64).flatMap fun i => Dir.all.filterMap fun d =>
+    if enabledMove s.board s.gold s.step s.pend i d then some (sqName i ++ String.ofList [dirLetter d]) else none
+  let all := if passEnabled s.step s.pend then moves ++ ["p"] else moves
+  let vanr := if all.isEmpty then "-" else ",".intercalate (sortStrings all)
+  let term := if s.step == 0 then
+      (match result s.board s.gold with
+       | none => "-"
+       | some .goldWin => "G"
+       | some .silverWin => "S")
+    else "?"
+  s!"vanr={vanr} term={term}"
+
+def handle (cur : Option SpecState) (line : String) : Option SpecState × String :=
+  match splitWords line with
+  | "S" :: ws =>
+    match parseState ws with
+    | some r => match stateOfRaw r with
+      | some s => (some s, "ok")
+      | none => (none, "bad-state")
+    | none => (none, "bad-state")
+  | ["O"] =>
+    match cur with
+    | some s => (cur, observe s)
+    | none => (cur, "no-state")
+  | ["T", a] =>
+    match cur with
+    | some s =>
+      if !s.play then (cur, "setup")
+      else if a == "p" then
+        (cur, "board=" ++ "/".intercalate ((wordsOfSpec s.board).map toHex16) ++ " pps=-")
+      else match moveOfString a with
+        | some (i, d) =>
+          let b' := applyStep s.board i d
+          let pps := if s.step < 3 then stringOfPend (nextPending s.board s.gold s.pend i d) else "-"
+          (cur, "board=" ++ "/".intercalate ((wordsOfSpec b').map toHex16) ++ " pps=" ++ pps)
+        | none => (cur, "skip")
+    | none => (cur, "no-state")
+  | [] => (cur, "")
+  | _ => (cur, "skip")
+
+partial def loop (hin : IO.FS.Stream) (hout : IO.FS.Stream) (cur : Option SpecState) : IO Unit := do
+  let line ← hin.getLine
+  if line.isEmpty then return ()
+  let (cur', out) := handle cur line
+  hout.putStrLn out
+  loop hin hout cur'
+
+def main : IO Unit := do
+  let hin ← IO.getStdin
+  let hout ← IO.getStdout
+  loop hin hout none
+  hout.flush
